@@ -1,4 +1,6 @@
 import Mustache.Proofs.ClosureSpec
+import Mustache.Proofs.PackMask
+import Mustache.Model.WorldStep
 
 /-!
 # C13 — declared component dependencies always hold
@@ -173,5 +175,128 @@ theorem remove_master_keeps_dependents (info : CompId → CompInfo) {s : WS} {o 
 /-- chain 0→1→2, entity {0,1,2} with values: removing the master 0 keeps 1 and 2 and their values -/
 example : ((({ deps := chain, ents := [some ⟨[(0, some 4), (1, some 5), (2, some 6)], []⟩] } : WS).doRemove info0 0 0).1.alive 0).map
     (·.comps) = some [(1, some 5), (2, some 6)] := by decide
+
+/-! ## deferred command packs on archetypes that predate a declaration
+
+`seqMask deps m cmds` (`Mustache.Proofs.PackMask`): fold of `seqMaskStep`, the effect of the matching immediate
+operation on a component set — `assign c`: `m` if `c ∈ m`, else `closedMask deps (m ∪ {c})`; `remove c`:
+`closedMask deps (m − {c})` if `c ∈ m`, else `m`; `destroy`: `m`.  `HasMask w e m`: `e`'s location names an
+existing archetype of `w` whose mask is `m`.  None of the theorems below assumes that archetype masks are closed
+under `w.deps`: the entity's archetype may have been created before a dependency was declared. -/
+section PackMask
+open Mustache.Proofs.PackMask Mustache.Proofs.Rows
+
+/-- `pack_final_eq_seqMask`: the component set `applyCommandPack` folds over a pack without creation / immediate
+destruction is `seqMask w.deps m pack`, from ANY start mask `m`; the pack stays alive and the table is unchanged. -/
+theorem pack_final_eq_seqMask (info : CompId → CompInfo) (e : Handle) (w : WM) (m : Mask) (pack : List Cmd)
+    (hp : ∀ c ∈ pack, plainCmd c = true) :
+    (pack.foldl (packStep info e false) (w, { final := m }, [])).2.1.final = seqMask w.deps m pack ∧
+    (pack.foldl (packStep info e false) (w, { final := m }, [])).2.1.dead = false ∧
+    (pack.foldl (packStep info e false) (w, { final := m }, [])).1.deps = w.deps :=
+  Mustache.Proofs.PackMask.pack_final_eq_seqMask info e w m pack hp
+
+/-- `immediate_ops_mask`: on the unlocked world, for an entity located in the existing archetype `pi`
+(mask `m = (w.arch pi).mask`, any list): `assign<C>(e)` of an absent `c` leaves it in an archetype with mask
+`closedMask w.deps (m ∪ {c})`, `removeComponent<C>(e)` of a valid `e` in one with mask `closedMask w.deps (m − {c})`
+if `c ∈ m` and `m` otherwise — also when `getArchetype` returns the entity's own archetype and nothing moves.
+(An `assign` of a PRESENT component — outside the API contract — gives `closedMask w.deps m`: first conjunct.) -/
+theorem immediate_ops_mask (info : CompId → CompInfo) (w : WM) (t : Nat) (e : Handle) (c : CompId) (pi idx : Nat)
+    (hul : w.isLocked = false) (hn : e.id ≠ nullId) (hloc : w.locOf e = ⟨some pi, idx⟩)
+    (hpi : pi < w.archs.length) :
+    (∀ v, HasMask (w.assign info t e c v).1 e (closedMask w.deps (Mask.insert (w.arch pi).mask c))) ∧
+    (c ∉ (w.arch pi).mask →
+      ∀ v, HasMask (w.assign info t e c v).1 e (seqMaskStep w.deps (w.arch pi).mask (.assign e c v))) ∧
+    (w.isValid e = true →
+      HasMask (w.removeComp info t e c).1 e (seqMaskStep w.deps (w.arch pi).mask (.remove e c))) :=
+  ⟨fun v => (immediate_assign_closed info w t e c v pi idx hul hn hloc hpi).1,
+   fun hc v => (immediate_assign_mask info w t e c v pi idx hul hn hloc hpi hc).1,
+   fun hv => (immediate_remove_mask info w t e c pi idx hul hv hn hloc hpi).1⟩
+
+/-- `deferred_pack_mask`: a pack of assigns / removes / destroy marks (no creation, no `destroyNow`) applied to
+an existing valid entity `e` located in archetype `pi` with sorted mask `m` — closed under `w.deps` or not —
+leaves `e` valid, the table unchanged, and `e` in an archetype whose mask is exactly `seqMask w.deps m pack`;
+and if that differs from `m` it is closed under the current table. -/
+theorem deferred_pack_mask (info : CompId → CompInfo) (w : WM) (e : Handle) (pack : List Cmd) (pi idx : Nat)
+    (hb : DepsBounded w.deps) (hv : w.isValid e = true) (hn : e.id ≠ nullId)
+    (hloc : w.locOf e = ⟨some pi, idx⟩) (hpi : pi < w.archs.length) (hs : (w.arch pi).mask.Pairwise (· < ·))
+    (hent : ∀ c ∈ pack, c.entity = e) (hp : ∀ c ∈ pack, plainCmd c = true) :
+    HasMask (w.applyPack info pack).1 e (seqMask w.deps (w.arch pi).mask pack) ∧
+    (w.applyPack info pack).1.isValid e = true ∧ (w.applyPack info pack).1.deps = w.deps ∧
+    (seqMask w.deps (w.arch pi).mask pack ≠ (w.arch pi).mask →
+      ∀ c ∈ seqMask w.deps (w.arch pi).mask pack, ∀ d ∈ depsOf w.deps c,
+        d ∈ seqMask w.deps (w.arch pi).mask pack) := by
+  obtain ⟨h1, h2, h3⟩ := Mustache.Proofs.PackMask.deferred_pack_mask info w e pack pi idx hb hv hn hloc hpi hs hent hp
+  exact ⟨h1, h2, h3, fun hne => seqMask_closedUnder_of_ne hb pack hs hne⟩
+
+/-- `deferred_pack_mask_eq_immediate`: the deferred path gives the entity exactly the component set that issuing
+the same commands immediately, one by one (`immRun`: unlocked `assign` / `removeComponent` / `destroy` calls), gives
+— for every dependency table within the mask width and every sorted start mask, including archetypes that predate
+a declaration. Side condition `hre`: the start mask is closed, or no assign names a component of the start mask
+(an immediate `assign` of a present component looks the archetype of `m` up again and so closes an unclosed `m`;
+the pack does not — see the example below). -/
+theorem deferred_pack_mask_eq_immediate (info : CompId → CompInfo) (t : Nat) (w : WM) (e : Handle)
+    (pack : List Cmd) (pi idx : Nat) (hb : DepsBounded w.deps) (hul : w.isLocked = false)
+    (hv : w.isValid e = true) (hn : e.id ≠ nullId) (hloc : w.locOf e = ⟨some pi, idx⟩)
+    (hpi : pi < w.archs.length) (hs : (w.arch pi).mask.Pairwise (· < ·))
+    (hent : ∀ c ∈ pack, c.entity = e) (hp : ∀ c ∈ pack, plainCmd c = true)
+    (hre : closedMask w.deps (w.arch pi).mask = (w.arch pi).mask ∨
+      ∀ e' c v, Cmd.assign e' c v ∈ pack → c ∉ (w.arch pi).mask) :
+    HasMask (w.applyPack info pack).1 e (seqMask w.deps (w.arch pi).mask pack) ∧
+    HasMask (immRun info t w pack) e (seqMask w.deps (w.arch pi).mask pack) ∧
+    maskOf (w.applyPack info pack).1 e = maskOf (immRun info t w pack) e := by
+  obtain ⟨h1, h2⟩ := deferred_eq_immediate info t w e pack pi idx hb hul hv hn hloc hpi hs hent hp hre
+  exact ⟨h1, h2, by rw [h1.maskOf, h2.maskOf]⟩
+
+/-- the world of the examples: `7 requires 3` declared up front, an entity with components {2,3,5}, and then
+`3 requires 7` declared late: the entity's archetype [2,3,5] is no longer closed under the table -/
+def lateOps : List (Op Handle) := [.dep 7 [3], .create 0 [2, 3, 5] [], .dep 3 [7]]
+def lateW : WM := lateOps.foldl (fun w op => (w.step info0 op).1) {}
+def lateE : Handle := ⟨0, 0, 0⟩
+
+/-- every hypothesis of the theorems holds in `lateW` for `lateE` (archetype 0, row 0), and its archetype mask is
+NOT closed: 3 is there, its late dependent 7 is not -/
+example : DepsBounded lateW.deps ∧ lateW.isLocked = false ∧ lateW.isValid lateE = true ∧ lateE.id ≠ nullId ∧
+    lateW.locOf lateE = ⟨some 0, 0⟩ ∧ 0 < lateW.archs.length ∧ (lateW.arch 0).mask = [2, 3, 5] ∧
+    (lateW.arch 0).mask.Pairwise (· < ·) ∧ lateW.deps = [(7, [3]), (3, [3, 7])] ∧
+    closedMask lateW.deps (lateW.arch 0).mask = [2, 3, 5, 7] := by
+  refine ⟨by decide, by decide, by decide, by decide, by decide, by decide, by decide, by decide, by decide,
+    by decide⟩
+
+/-- deferred `assign<7>`: {2,3,5,7}; deferred `assign<9>`: {2,3,5,7,9} (7 caught up with); deferred `remove<2>`:
+{3,5,7}; assign 9, remove 9, remove 7: {2,3,5,7} (7 comes back as dependent of 3) — the model computes what
+`seqMask` says, and the immediate calls give the same -/
+example :
+    maskOf (lateW.applyPack info0 [.assign lateE 7 (some 9)]).1 lateE = some [2, 3, 5, 7] ∧
+    seqMask lateW.deps [2, 3, 5] [.assign lateE 7 (some 9)] = [2, 3, 5, 7] ∧
+    maskOf (lateW.applyPack info0 [.assign lateE 9 (some 9)]).1 lateE = some [2, 3, 5, 7, 9] ∧
+    maskOf (lateW.applyPack info0 [.remove lateE 2]).1 lateE = some [3, 5, 7] ∧
+    maskOf (lateW.applyPack info0 [.assign lateE 9 (some 9), .remove lateE 9, .remove lateE 7]).1 lateE =
+      some [2, 3, 5, 7] ∧
+    maskOf (immRun info0 0 lateW [.assign lateE 9 (some 9), .remove lateE 9, .remove lateE 7]) lateE =
+      some [2, 3, 5, 7] ∧
+    maskOf (immRun info0 0 lateW [.assign lateE 7 (some 9)]) lateE = some [2, 3, 5, 7] := by
+  refine ⟨by decide, by decide, by decide, by decide, by decide, by decide, by decide⟩
+
+/-- the theorem applied to the concrete world (all hypotheses decided) -/
+example : HasMask (lateW.applyPack info0 [.assign lateE 7 (some 9)]).1 lateE [2, 3, 5, 7] ∧
+    HasMask (immRun info0 0 lateW [.assign lateE 7 (some 9)]) lateE [2, 3, 5, 7] := by
+  have h := deferred_pack_mask_eq_immediate info0 0 lateW lateE [.assign lateE 7 (some 9)] 0 0
+    (by decide) (by decide) (by decide) (by decide) (by decide) (by decide) (by decide) (by decide) (by decide)
+    (Or.inr (fun e' c v h => by rw [List.mem_singleton] at h; cases h; decide))
+  have hm : seqMask lateW.deps (lateW.arch 0).mask [.assign lateE 7 (some 9)] = [2, 3, 5, 7] := by decide
+  rw [hm] at h
+  exact ⟨h.1, h.2.1⟩
+
+/-- through the API: lock, deferred `assign<7>`, unlock on the late-declaration world gives {2,3,5,7} -/
+example : maskOf ((lateOps ++ [Op.lock, Op.assign 0 lateE 7 (some 9), Op.unlock]).foldl
+    (fun w op => (w.step info0 op).1) ({} : WM)) lateE = some [2, 3, 5, 7] := by decide
+
+/-- the side condition `hre` is needed: re-assigning the present component 3 on the unclosed archetype {2,3,5}
+leaves {2,3,5} when deferred, but the immediate call looks {2,3,5} up again and lands in {2,3,5,7} -/
+example : maskOf (lateW.applyPack info0 [.assign lateE 3 (some 1)]).1 lateE = some [2, 3, 5] ∧
+    maskOf (immRun info0 0 lateW [.assign lateE 3 (some 1)]) lateE = some [2, 3, 5, 7] := by
+  refine ⟨by decide, by decide⟩
+
+end PackMask
 
 end Mustache.Props.C13
